@@ -292,7 +292,7 @@ fn configs(prop: &'static str, tier: Tier) -> Vec<Bh> {
                 max,
                 max_wait,
                 callers: if max == 2 { callers.max(3) } else { callers },
-                max_ticks: tier.pick(3, 4),
+                max_ticks: tier.pick(3, 5),
                 max_drops: tier.pick(2, 3),
                 max_panics: 1,
                 late_ticks: 0,
@@ -359,8 +359,8 @@ fn main() {
     for w in ["queue_nonempty_while_full", "two_callers_pollable_at_one_instant", "drop_while_running", "drop_while_queued", "drop_before_first_poll", "reject_at_deadline", "inner_panic_propagated", "release_and_deadline_same_instant", "time_passed_while_a_woken_caller_was_unpolled"] {
         rep.require_witness(w);
     }
-    let depth = tier.pick(9, 12);
-    rep.bounds = json!({"depth": depth, "callers": tier.pick(3,4), "max_ticks": tier.pick(3,4), "max_drops": tier.pick(2,3), "max_panics": 1, "grid_ms": 10});
+    let depth = tier.pick(9, 14);
+    rep.bounds = json!({"depth": depth, "callers": tier.pick(3,4), "max_ticks": tier.pick(3,5), "max_drops": tier.pick(2,3), "max_panics": 1, "grid_ms": 10});
     for cfg in configs(prop, tier) {
         let opts = Opts { max_depth: depth, time_cap: Duration::from_secs(tier.pick(40, 900)), ..Opts::default() };
         let ex = svcx::explore(&cfg, &opts, &mut rep);
